@@ -4,6 +4,7 @@ import (
 	"fmt"
 	"os"
 	"os/exec"
+	"path/filepath"
 	"reflect"
 	"regexp"
 	"sort"
@@ -60,6 +61,37 @@ func coldConcurrentProduce() {
 	default:
 	}
 	fmt.Println("cold ok")
+}
+
+var declRe = regexp.MustCompile(`(?m)^type (DPT_[0-9]+) `)
+
+// declaredTypes: the exported DPT_ types the package's source declares (read from /repo, the tree the
+// harness was built from)
+func declaredTypes() []string {
+	root := os.Getenv("VERIF_REPO")
+	if root == "" {
+		root = "/repo"
+	}
+	files, _ := filepath.Glob(root + "/knx/dpt/*.go")
+	seen := map[string]bool{}
+	var out []string
+	for _, f := range files {
+		if strings.HasSuffix(f, "_test.go") {
+			continue
+		}
+		b, err := os.ReadFile(f)
+		if err != nil {
+			continue
+		}
+		for _, m := range declRe.FindAllStringSubmatch(string(b), -1) {
+			if !seen[m[1]] {
+				seen[m[1]] = true
+				out = append(out, m[1])
+			}
+		}
+	}
+	sort.Strings(out)
+	return out
 }
 
 // c19Cold runs the cold-start concurrency probe in child processes (a lazily filled cache or table
@@ -213,6 +245,97 @@ func (r *run) c19(budget int, thorough bool) {
 			if render(d) != render(zero) {
 				r.violation("registry-state-changed", op, "after this history Produce("+t.key+") yields "+render(d))
 			}
+		}
+	}
+	// 3b. every exported DPT_ type declared in the package's source is reachable through the registry
+	if declared := declaredTypes(); len(declared) > 0 {
+		reached := map[string]bool{}
+		for _, k := range keys {
+			if d, ok := dpt.Produce(k); ok && d != nil {
+				reached[typeName(d)] = true
+			}
+		}
+		for _, tn := range declared {
+			r.classes["declared-type-checked"]++
+			if !reached[tn] {
+				r.violation("declared-type-unreachable", "type "+tn, "declared in knx/dpt but no listed name produces it")
+			}
+		}
+	}
+	// 3c. concurrent Produce / Unpack over ALL types: each goroutine fills its own instances with its
+	// own payloads and reads back what a sequential decode of the same payload gives
+	{
+		type sample struct {
+			p      []byte
+			render string
+		}
+		samples := map[string][]sample{}
+		for _, t := range types {
+			for tries := 0; tries < 40 && len(samples[t.key]) < 4; tries++ {
+				var p []byte
+				if t.name == "DPT_28001" {
+					p = append([]byte{0}, []byte(fmt.Sprintf("text-%d", tries))...)
+					p = append(p, 0)
+				} else {
+					p = make([]byte, t.fixed)
+					r.rnd.Read(p)
+					p[0] = 0
+					if t.fixed == 1 {
+						p[0] = byte(r.rnd.Intn(64))
+					}
+					if t.kind == reflect.String {
+						for i := 1; i < len(p); i++ {
+							p[i] = byte(0x41 + (tries*7+i)%26)
+						}
+					}
+				}
+				d, _ := dpt.Produce(t.key)
+				ok := func() (ok bool) {
+					defer func() {
+						if recover() != nil {
+							ok = false
+						}
+					}()
+					return d.Unpack(p) == nil
+				}()
+				if ok {
+					samples[t.key] = append(samples[t.key], sample{p, render(d)})
+				}
+			}
+		}
+		var wg sync.WaitGroup
+		errs := make(chan string, 8)
+		for g := 0; g < 16; g++ {
+			wg.Add(1)
+			go func(g int) {
+				defer wg.Done()
+				for round := 0; round < 30; round++ {
+					for ti := range types {
+						t := types[(ti+g*13)%len(types)]
+						ss := samples[t.key]
+						if len(ss) == 0 {
+							continue
+						}
+						sm := ss[(g+round)%len(ss)]
+						d, _ := dpt.Produce(t.key)
+						if err := d.Unpack(sm.p); err != nil {
+							continue
+						}
+						if got := render(d); got != sm.render {
+							select {
+							case errs <- fmt.Sprintf("goroutine %d decoded %s into its own %s instance and read back %q, a sequential decode gives %q", g, hx(sm.p), t.name, got, sm.render):
+							default:
+							}
+							return
+						}
+					}
+				}
+			}(g)
+		}
+		wg.Wait()
+		close(errs)
+		for e := range errs {
+			r.violation("concurrent-instances-interfere", "16 goroutines x Produce/Unpack over all types", e)
 		}
 	}
 	// 4. concurrent Produce / Unpack from 16 goroutines
